@@ -64,7 +64,7 @@ def obj_m(rnd, depth):
         i = rnd.choice([1, 2, 3, 3, 4, 5, 6, 7, 8, 4278190080, 4278190081])
         s = str(i)
         if rnd.random() < 0.5:
-            s += rnd.choice(['a', 'a', 'b', 'c', 'B', 'aa'])
+            s += rnd.choice(['a', 'a', 'b', 'c', 'B', 'aa', 'z', 'Z', 'az', 'zz', 'y'])
         if rnd.random() < 0.3:
             s = rnd.choice(['@', '#']) + s
         return s
